@@ -20,7 +20,7 @@ class Harness:
         except Exception:
             self.p.kill()
 
-FP_RE = re.compile(r"E(\d+) T(-?\d+) M\[([^\]]*)\] A\[([^\]]*)\] N(\S*) D(\S*) I(\d+) R\[([^\]]*)\] S(\w) PA\[([^\]]*)\] PR\[([^\]]*)\] L(\S+) X\[([^\]]*)\] K\[([^\]]*)\] Z(\d+)(!sync)?(?: Q(\d+))?")
+FP_RE = re.compile(r"E(\d+) T(-?\d+) M\[([^\]]*)\] A\[([^\]]*)\] N(\S*) D(\S*) I(\d+) R\[([^\]]*)\] S(\w) PA\[([^\]]*)\] PR\[([^\]]*)\] L(\S+) X\[([^\]]*)\] K\[([^\]]*)\] Z(\d+)(!sync)?(?: Q(\d+))?(?: C(\d))?")
 
 def parse_fp(fp):
     m = FP_RE.match(fp)
@@ -37,7 +37,8 @@ def parse_fp(fp):
     return {"epoch": int(m.group(1)), "token": int(m.group(2)), "members": m.group(3), "admins": m.group(4), "name": m.group(5),
             "desc": m.group(6), "nid": m.group(7), "relays": m.group(8), "state": m.group(9), "pa": m.group(10), "pr": m.group(11),
             "last": m.group(12), "msgs": msgs, "recs": recs, "snaps": int(m.group(15)), "sync": m.group(16) is None,
-            "queued": int(m.group(17)) if m.group(17) is not None else None, "raw": fp}
+            "queued": int(m.group(17)) if m.group(17) is not None else None,
+            "pendc": int(m.group(18)) if m.group(18) is not None else None, "raw": fp}
 
 def proj(f):
     """the projection C06/C07 speak about: epoch, MLS state, members, group data, pending proposals, stored messages"""
@@ -122,6 +123,17 @@ class World:
                           "parent_nid": before["nid"] if before else None, "tag_nid": before["nid"] if before else None,
                           "sender_admin": (str(sender) in before["admins"].split(",")) if before else None,
                           "line": line}
+        t = line.split()
+        if t[0] == "leave":
+            self.events[n]["sub"] = "leave"                 # a member's own request to leave (Remove of its own leaf)
+        elif t[0] == "advprop" and t[2] == "remove":
+            self.events[n].update({"sub": "leave"} if int(t[3]) == sender else {"sub": "xremove", "target": int(t[3])})
+        elif t[0] == "advprop" and t[2] == "add":
+            self.events[n].update({"sub": "xadd", "target": self.kp_owner[int(t[3])]})
+        elif t[0] == "advprop":
+            self.events[n]["sub"] = t[2]
+        elif t[0] == "advupdate":
+            self.events[n]["sub"] = "update"
         return n
     def republish(self, line):
         """`rewrap n ts` / `retag n j`: an observer publishes the same ciphertext under a new wrapper (fresh ephemeral key;
@@ -148,7 +160,7 @@ class World:
                               "parent_token": before["token"] if before else None, "parent_epoch": before["epoch"] if before else None,
                               "parent_nid": before["nid"] if before else None, "tag_nid": before["nid"] if before else None,
                               "sender_admin": (str(c) in before["admins"].split(",")) if before else None,
-                              "line": "auto-commit", "sub": "auto"}
+                              "line": "auto-commit", "sub": "auto", "trigger": n}
         return r.split()[0], before, self.fps.get(c)
 
 REFUSED = ("unprocessable", "previously_failed", "ignored")
@@ -195,12 +207,32 @@ def gen_data_update(w, rng, c, alive, others, tok, gone=(), p_nid=0.0):
             fields["admins"] = ",".join(map(str, sorted(new))) or "-"
     return " ".join(f"{k} {v}" for k, v in fields.items())
 
-def gen_race_history(w, rng, tier, regime=None, restarts=True, ties=True, p_rewrap=0.25, p_leave=0.0, p_adv=0.25, p_hole=0.3, p_upd=0.2, p_data=0.5, p_nid=0.3, p_retag=0.2, p_add=0.3, p_remove=0.12):
+def gen_race_history(w, rng, tier, regime=None, restarts=True, ties=True, p_rewrap=0.25, p_leave=0.0, p_adv=0.25, p_hole=0.3, p_upd=0.2, p_data=0.5, p_nid=0.3, p_retag=0.2, p_add=0.3, p_remove=0.12, p_xprop=0.4):
     """setup, then rounds of concurrent actions on one epoch, per-client shuffled delivery with
-    duplication, then quiescence rounds"""
+    duplication, then quiescence rounds.
+
+    `p_leave` > 0 turns the PROPOSAL flow on (C05 / C06): every such history has one of two flavours —
+      "L": members ask to leave (`leave_group`: plain members, admins, the last admin; sometimes two in one round; while
+           commits are pending at the receivers; racing the round's commits), admins auto-commit, and then merge at once /
+           wait for the echo / clear the auto-commit (publish failed); members craft Remove(other), GroupContextExtensions
+           and PSK proposals with the MLS library;
+      "A": members craft stand-alone Add proposals (key package of an outsider nobody adds otherwise); no removals at all.
+    The flavours are separate because a commit that removes a member AND adds one lets the newcomer take the removed
+    member's leaf, which mdk does not recognise as an eviction (finding evicted-leaf-reused-undetected, replayed from
+    corpus/C06/evicted_leaf_reused.trace; the model has no leaf positions).  For the same reason no `add` is issued by an admin
+    that holds queued removals.  Not generated either: two queued removals of one member (which one a commit references
+    is decided by the proposals' hash order), a second leave of the same client."""
     n = rng.choice([2, 3, 3, 4, 5] if tier == "quick" else [2, 3, 4, 5, 6])
+    flavour = None
+    if p_leave > 0:
+        flavour = rng.choice(["L", "L", "L", "A"])
+        n = max(n, 3)
+        if flavour == "A":
+            p_hole, p_remove, p_adv = 0.0, 0.0, 0.0
     # outsiders: clients that hold a key package but no group until an admin adds them (between rounds, uncontended)
     outsiders = rng.choice([0, 0, 1, 2]) if (p_add > 0 and n <= 4) else 0
+    if flavour == "A":
+        outsiders = max(outsiders, 1)
     backends = [rng.choice(["mem", "sql"]) for _ in range(n + outsiders)]
     nadm = rng.randint(1, n)
     admins = sorted(rng.sample(range(n), nadm))
@@ -208,8 +240,12 @@ def gen_race_history(w, rng, tier, regime=None, restarts=True, ties=True, p_rewr
         admins = [0] + admins[:-1] if len(admins) > 1 else [0]
     retention = rng.choice([5, 5, 5, 2, 1])
     w.meta = {"n": n + outsiders, "members": list(range(n)), "backends": backends, "admins": admins, "retention": retention, "p_rewrap": p_rewrap, "p_leave": p_leave}
+    if flavour:
+        w.meta["flavour"] = flavour
     w.setup_group(n, backends, admins, retention, outsiders=outsiders)
     pool = list(range(n, n + outsiders))
+    reserved = pool.pop() if flavour == "A" else None     # the outsider whose key package the crafted Add proposals carry
+    left, xtargets = set(), set()                          # clients that asked to leave; targets of crafted Remove proposals
     regime = regime or rng.choice(["inorder", "causal", "unrestricted"])
     apply_mode = {c: rng.choice(["echo", "echo", "immediate"]) for c in range(n + outsiders)}
     w.meta.update({"regime": regime, "apply": apply_mode})
@@ -239,7 +275,8 @@ def gen_race_history(w, rng, tier, regime=None, restarts=True, ties=True, p_rewr
         new = []
         # an admin adds an outsider — outside any race, applied by everybody in order — and the newcomer joins by its welcome
         if pool and rng.random() < p_add:
-            adders = [c for c in alive if c in view_admins(w, c) and (w.fps.get(c) or {}).get("state") == "a"]
+            adders = [c for c in alive if c in view_admins(w, c) and (w.fps.get(c) or {}).get("state") == "a"
+                      and not (flavour and (w.fps.get(c) or {}).get("pr"))]
             if adders:
                 a = rng.choice(adders); j = pool[0]; ts += 2
                 kp = w.kp_owner.index(j)
@@ -303,10 +340,41 @@ def gen_race_history(w, rng, tier, regime=None, restarts=True, ties=True, p_rewr
                 if k is not None:
                     new.append(k)
         # a member asks to leave (a proposal; an admin receiver auto-commits it)
-        if rng.random() < w.meta.get("p_leave", 0.0):
-            s = rng.choice(alive); ts += 1
-            e = w.publish(f"leave {s} {ts}", "proposal", s)
-            if e is not None: new.append(e)
+        if rng.random() < w.meta.get("p_leave", 0.0) and flavour == "L":
+            cands = [c for c in alive if c not in left and c not in xtargets and (w.fps.get(c) or {}).get("state") == "a"]
+            for _ in range(rng.choice([1, 1, 2])):
+                if not cands:
+                    break
+                # plain members, admins, now and then the only admin left
+                s = rng.choice(cands); cands.remove(s); ts += 1
+                e = w.publish(f"leave {s} {ts}", "proposal", s)
+                if e is not None:
+                    left.add(s); new.append(e)
+                    w.events[e]["sub"] = "leave"
+        if flavour == "L" and rng.random() < p_xprop:
+            # a member (mostly a non-admin) crafts a stand-alone proposal with the MLS library: Remove of ANOTHER member
+            # (one per target, never somebody who asked to leave), GroupContextExtensions, PSK
+            a = rng.choice(alive)
+            what = rng.choice(["remove", "remove", "remove", "gce", "psk"])
+            tstamp = base + rng.choice([-6, 0, 2, 7])
+            if what == "remove":
+                vs = [v for v in alive if v != a and v not in left and v not in xtargets]
+                if vs:
+                    v = rng.choice(vs)
+                    e = w.publish(f"advprop {a} remove {v} {tstamp}", "proposal", a)
+                    if e is not None:
+                        xtargets.add(v); new.append(e)
+                        w.events[e].update({"sub": "xremove", "target": v})
+            else:
+                e = w.publish(f"advprop {a} {what} - {tstamp}", "proposal", a)
+                if e is not None:
+                    new.append(e); w.events[e]["sub"] = what
+        if flavour == "A" and rng.random() < p_xprop + 0.2:
+            a = rng.choice(alive)
+            e = w.publish(f"advprop {a} add {w.kp_owner.index(reserved)} {base + rng.choice([-6, 0, 2, 7])}", "proposal", a)
+            if e is not None:
+                new.append(e)
+                w.events[e].update({"sub": "xadd", "target": reserved})
         # a NON-admin member builds a Remove commit with the MLS library directly, with a chosen timestamp
         nonadmins = [c for c in alive if c not in view_admins(w, c)]
         if nonadmins and rng.random() < p_adv:
@@ -324,7 +392,6 @@ def gen_race_history(w, rng, tier, regime=None, restarts=True, ties=True, p_rewr
             a = rng.choice(alive)
             e = w.publish(f"advupdate {a} {base + rng.choice([-6, 0, 2, 7])}", "proposal", a)
             if e is not None:
-                w.events[e]["unmodelled"] = True
                 new.append(e)
         ts = base + 5
         # messages after (from clients on their own — possibly pending — state)
@@ -347,11 +414,39 @@ def gen_race_history(w, rng, tier, regime=None, restarts=True, ties=True, p_rewr
                 order = [e for e in order if e not in hold]
                 w.meta.setdefault("held", {}).setdefault(c, []).extend(hold)
             order += w.meta.get("held", {}).pop(c, []) if rng.random() < 0.7 else []
+            if flavour and rng.random() < 0.6:
+                # the proposals of the round reach this client before the round's commits (while its own commit is pending)
+                order = [e for e in order if w.events[e]["kind"] == "proposal"] + [e for e in order if w.events[e]["kind"] != "proposal"]
             for e in order:
                 w.deliver(c, e)
                 delivered[c].add(e)
                 if rng.random() < 0.15:
                     w.deliver(c, e)      # duplicate
+        if flavour:
+            # the commits admins staged automatically while processing leave proposals: merged at once, left pending until the
+            # echo, or cleared (the publish failed: nobody else ever sees the event); the published ones go to everybody
+            autos = [k for k in sorted(w.events) if w.events[k].get("sub") == "auto" and "handled" not in w.events[k]]
+            for k in autos:
+                c = w.events[k]["sender"]
+                w.events[k]["handled"] = True
+                r = rng.random()
+                if r < 0.15:
+                    w.do(f"clear {c}")
+                    w.events[k]["unpublished"] = True
+                    continue
+                w.events[k]["apply"] = apply_mode[c]
+                if apply_mode[c] == "immediate":
+                    w.do(f"merge {c}")
+            for c in alive:
+                order = [k for k in autos if not w.events[k].get("unpublished")]
+                rng.shuffle(order)
+                for e in order:
+                    if regime == "unrestricted" and rng.random() < 0.2:
+                        w.meta.setdefault("held", {}).setdefault(c, []).append(e)
+                        continue
+                    w.deliver(c, e)
+                    if rng.random() < 0.15:
+                        w.deliver(c, e)
         if rng.random() < 0.25:
             sqls = [c for c in alive if backends[c] == "sql"]
             if sqls:
@@ -374,6 +469,8 @@ def quiesce(w, max_rounds=5):
             if c in getattr(w, "never_told", ()) or w.fps.get(c) is None:
                 continue        # (removed before the races and deliberately never told; or holds no group)
             for e in sorted(w.events):
+                if w.events[e].get("unpublished"):
+                    continue        # an auto-commit its author cleared: never published
                 _, before, after = w.deliver(c, e)
                 if proj(before) != proj(after):
                     changed = True
@@ -432,7 +529,8 @@ def oracle_world(w):
     SHARED = {"rollback-before-authorisation": ["C01", "C05", "C06", "C02"], "refused-after-rollback": ["C06", "C01"],
               "hydrated-timestamp-zero": ["C01", "C11"], "handshake-before-predecessor-blocked": ["C01", "C02"],
               "record-not-synced": ["C08", "C06"], "rewrapped-commit-rollback": ["C06", "C01", "C07", "C02"],
-              "retagged-commit-rollback": ["C06", "C01", "C02"], "h-rotation-in-flight": ["C02", "C01"]}
+              "retagged-commit-rollback": ["C06", "C01", "C02"], "h-rotation-in-flight": ["C02", "C01"],
+              "autocommit-failed-proposal-stored": ["C06", "C05"], "evicted-leaf-reused-undetected": ["C06", "C05"]}
     def fail(prop, sig, step, what):
         fails.append({"kind": "oracle", "prop": prop, "props": sorted(set([prop] + SHARED.get(sig, []))), "signature": sig,
                       "what": f"world {w.id} step {step}: {what}", "replay_body": w.text(step, what)})
@@ -461,8 +559,45 @@ def oracle_world(w):
             return
         parent = token_data[ev["parent_token"]][0]
         changed = [n for n, x, y in zip(GD, parent, gdata(f)) if x != y]
+        orig = w.events.get(root_of(w, n_ev), ev)
+        line = (orig.get("line") or "").split()
         if changed and str(ev["sender"]) not in parent[1].split(","):
-            fail("C05", "nonadmin-commit-accepted", i, f"`{cmd}`: c{c} applied commit {n_ev} by c{ev['sender']}, who is not an admin in the state it applies to (admins [{parent[1]}]), and {changed} changed: {parent} -> {gdata(f)}")
+            sig = "nonadmin-commit-accepted"
+            if c == ev["sender"] and line[:1] == ["selfupdate"] and changed == ["members"] and set(gdata(f)[0].split(",")) < set(parent[0].split(",")):
+                # the committer itself merges (merge_pending_commit / its echo) its own `self_update`, which swept queued Remove
+                # proposals out of its store: every OTHER client refuses that commit (CommitFromNonAdmin)
+                sig = "nonadmin-selfupdate-sweeps-proposal"
+            fail("C05", sig, i, f"`{cmd}`: c{c} applied commit {n_ev} by c{ev['sender']}, who is not an admin in the state it applies to (admins [{parent[1]}]), and {changed} changed: {parent} -> {gdata(f)}")
+            return
+        # "an admin's own operation changes exactly what it names … the only automatic case being an admin committing a member's
+        # own request to leave": the roster change of the applied commit against what its operation named
+        named = None
+        if orig.get("sub") == "auto":
+            trig = w.events.get(orig.get("trigger"), {})
+            named = (set(), {str(trig.get("sender"))})
+        elif line[:1] == ["add"]:
+            named = ({str(w.kp_owner[int(k)]) for k in line[2].split(",")}, set())
+        elif line[:1] == ["remove"]:
+            named = (set(), set(line[2].split(",")))
+        elif line[:1] in (["data"], ["selfupdate"]):
+            named = (set(), set())
+        if named is None:
+            return
+        mb, ma = {x for x in parent[0].split(",") if x}, {x for x in gdata(f)[0].split(",") if x}
+        same_state = [e for e in w.events.values() if e.get("parent_token") == ev["parent_token"]]
+        asked = {str(e["sender"]) for e in same_state if e.get("sub") == "leave"}       # members' OWN requests: the allowed exception
+        extra_rm = (mb - ma) - named[1] - asked
+        extra_add = (ma - mb) - named[0]
+        if extra_rm or extra_add:
+            xrm = {str(e["target"]) for e in same_state if e.get("sub") == "xremove"}
+            xadd = {str(e["target"]) for e in same_state if e.get("sub") == "xadd"}
+            if extra_rm <= xrm and extra_add <= xadd:
+                sig = "autocommit-sweeps-foreign-proposal" if orig.get("sub") == "auto" else "proposal-sweep"
+                how = "proposed by another member with a stand-alone Remove / Add proposal that the committer's store held"
+            else:
+                sig, how = "admin-op-not-exact", "that nobody proposed"
+            what_op = "the automatic commit of a leave" if orig.get("sub") == "auto" else f"`{' '.join(line)}`"
+            fail("C05", sig, i, f"`{cmd}`: c{c} applied commit {n_ev} ({what_op} by c{ev['sender']}): beyond what the operation names, removed {sorted(extra_rm)} added {sorted(extra_add)} — {how}: [{parent[0]}] -> [{gdata(f)[0]}]")
     # ---- per-step predicates (C06 refuse-frame, C07 redelivery, C08 sync) ----
     seen_effect = {}     # (client, event) -> True once a delivery of it was handled with effect
     prev_fp = {}
@@ -475,11 +610,12 @@ def oracle_world(w):
             fail("C06", f"panic:{t[0]}", i, "the call panicked"); continue
         f = parse_fp(fp)
         c = int(t[1]) if len(t) > 1 and t[1].isdigit() and t[0] not in ("rewrap", "retag") else None
-        if f is not None and not f["sync"] and f["state"] == "a":
+        torn = f is not None and c is not None and f["state"] == "a" and f["token"] >= 0 and str(c) not in f["members"].split(",")
+        if f is not None and not f["sync"] and f["state"] == "a" and not torn:
             fail("C08", "record-not-synced", i, f"stored record (epoch / name / description / admins / relays / nostr group id) differs from the MLS state after `{cmd}`")
         if c is not None and f is not None and prev_fp.get(c) is not None:
             b4 = prev_fp[c]
-            if b4["token"] == f["token"] and b4["token"] >= 0 and gdata(b4) != gdata(f) and b4["state"] == "a" and f["state"] == "a":
+            if b4["token"] == f["token"] and b4["token"] >= 0 and gdata(b4) != gdata(f) and b4["state"] == "a" and f["state"] == "a" and not torn:
                 # C05: roster / admins / data change only by applying a commit (the MLS state did not move here)
                 fail("C05", "data-changed-without-commit", i, f"`{cmd}` changed {[n for n, x, y in zip(GD, gdata(b4), gdata(f)) if x != y]} while the MLS state stayed T{f['token']}")
             if t[0] == "merge" and res == "ok" and b4["token"] != f["token"]:
@@ -503,6 +639,9 @@ def oracle_world(w):
                     fail("C08", "routing-not-by-current-id", i, f"`{cmd}`: event tagged I{evr['tag_nid']} at a client holding I{before['nid']} returned {r0}")
                 if r0 == "err:GroupNotFound" and not routed and (c, int(t[2])) not in gnf_first:
                     gnf_first[(c, int(t[2]))] = i
+            if before is not None and f is not None and evr.get("kind") == "proposal" and before["state"] == "a" and \
+                    (before["token"] != f["token"] or gdata(before) != gdata(f) or before["epoch"] != f["epoch"]):
+                fail("C05", "proposal-took-effect", i, f"`{cmd}` (a {evr.get('sub') or 'proposal'} proposal, answered {r0}) changed the MLS state / roster / group data: {proj(before)[:9]} -> {proj(f)[:9]}")
             if before is not None and f is not None and evr.get("kind") == "commit":
                 n_ev0 = int(t[2])
                 if evr.get("rewrap_of") is not None or any(x.get("rewrap_of") == n_ev0 for x in w.events.values()):
@@ -516,6 +655,18 @@ def oracle_world(w):
                 if is_refusal(r0) and proj(before) != proj(f):
                     ev = w.events.get(int(t[2]), {})
                     sig = "refused-with-effect"
+                    store_only = lambda g: tuple(x for k, x in enumerate(proj(g)) if k not in (9, 10, 12))     # all but pending adds / removes / store size
+                    if (r0 == "unprocessable" and ev.get("sub") == "leave" and str(c) in before["admins"].split(",") and store_only(before) == store_only(f)
+                            and (f.get("queued") or 0) == (before.get("queued") or 0) + 1
+                            and (before.get("pendc") == 1 or str(c) in before["pr"].split(","))):
+                        # `auto_commit_proposal` stored the leave and then could not build the commit: a commit of the receiver's own was
+                        # pending, or a queued Remove names the receiver itself
+                        sig = "autocommit-failed-proposal-stored"
+                    elif (r0 == "unprocessable" and ev.get("kind") == "commit" and before["token"] == f["token"] and f["state"] == "a"
+                            and before["members"] != f["members"] and str(c) not in f["members"].split(",")):
+                        # the commit removed the receiver AND added somebody who took over its leaf: `own_leaf()` still answers, the
+                        # eviction is not noticed, the call fails later (`exporter_secret`) with the public tree already replaced
+                        sig = "evicted-leaf-reused-undetected"
                     if before["epoch"] > f["epoch"]:
                         sig = "rollback-before-authorisation" if (r0.startswith("err:CommitFromNonAdmin") or ev.get("adv")) else "refused-after-rollback"
                         n_ev = int(t[2])
@@ -876,7 +1027,12 @@ def model_input(w):
                 continue
             out.append((i, f"{t[0]} {t[1]}"))
         elif t[0] == "advupdate":
-            continue        # stand-alone Update proposals are outside the model: inert on the current tree (oracle: refused-with-effect on Q)
+            if ev:      # a stand-alone Update proposal (Model.Proposal: ignored, nothing stored)
+                out.append((i, f"advprop {t[1]} update - {ev.group(1)} {ev.group(3)} {ev.group(2)}"))
+        elif t[0] == "advprop":
+            if ev:      # advprop <i> <remove j | add kp | gce - | psk -> <ts>; an Add names the OWNER of the key package
+                arg = str(w.kp_owner[int(t[3])]) if t[2] == "add" else t[3]
+                out.append((i, f"advprop {t[1]} {t[2]} {arg} {ev.group(1)} {ev.group(3)} {ev.group(2)}"))
         elif t[0] == "deliver" and int(t[2]) in unmodelled:
             continue
         elif t[0] == "deliver":
@@ -909,10 +1065,11 @@ def fp_view(fp, skip_recs=(), nids=None):
     recs = ",".join(f"{n}:{s}:{e}" for n, (s, e) in sorted(f["recs"].items()) if n not in skip_recs)
     nid = f["nid"] if nids is None else str(nids.setdefault(f["nid"], len(nids)))
     return (str(f["epoch"]), str(f["token"]), f["members"], f["admins"], f["name"], f["desc"], nid, f["relays"], f["state"], f["pa"], f["pr"],
-            f["last"], msgs, recs, str(f["snaps"]))
+            f["last"], msgs, recs, str(f["snaps"]), "-" if f.get("pendc") is None or f["state"] != "a" else str(f["pendc"]),
+            "-" if f.get("queued") is None or f["state"] != "a" else str(f["queued"]))
 
 FIELD_NAMES = ("epoch", "token", "members", "admins", "name", "description", "nostr_group_id", "relays", "state", "pending_adds", "pending_removes",
-               "last_message", "messages", "records", "snapshots")
+               "last_message", "messages", "records", "snapshots", "pending_commit", "queued_proposals")
 
 def correspondence(worlds):
     """replays every trace on the Lean model and diffs result kind + fingerprint fields"""
@@ -920,8 +1077,8 @@ def correspondence(worlds):
     inputs = []
     text = ""
     for w in worlds:
-        if getattr(w, "crashed", None) or not hasattr(w, "meta"):
-            continue
+        if getattr(w, "crashed", None) or not hasattr(w, "meta") or getattr(w, "impl_only", False):
+            continue        # (impl-only: a corpus witness of behaviour the model has no vocabulary for; its oracle verdict is asserted)
         mi = model_input(w)
         inputs.append((w, mi))
         text += "".join(l + "\n" for _, l in mi)
@@ -1065,11 +1222,15 @@ def oracle_c11(pairs):
 
 def replay_world(path, wid=None):
     """execute a stored command trace (corpus / replay file) on the harness; result lines in the file are ignored"""
-    return replay_cmds([l.strip() for l in open(path) if l.strip() and not l.startswith("#")], wid or f"corpus:{os.path.basename(path)}")
+    return replay_cmds([l.strip() for l in open(path) if l.strip() and not l.startswith("#")], wid or f"corpus:{os.path.basename(path)}",
+                       impl_only=any(l.startswith("#!impl-only") for l in open(path)),
+                       expect=[l.split()[1] for l in open(path) if l.startswith("#!expect ")])      # signatures the oracle must report on this trace
 
-def replay_cmds(cmds, wid):
+def replay_cmds(cmds, wid, impl_only=False, expect=()):
     """execute a list of command lines on a fresh harness"""
     w = World(wid)
+    w.impl_only = impl_only
+    w.expect = list(expect)
     backends, retention, admins, members = [], 5, [0], None
     try:
         for c in cmds:
@@ -1081,11 +1242,9 @@ def replay_cmds(cmds, wid):
             if t[0] == "create":
                 admins = [int(x) for x in t[2].split(",") if x not in ("", "-")]
                 members = [int(t[1])] + [w.kp_owner[int(k)] for k in t[5].split(",") if k not in ("", "-")]
-            if t[0] in ("send", "selfupdate", "data", "leave", "advremove", "advgce", "remove", "advupdate", "add"):
-                kind = "app" if t[0] == "send" else ("proposal" if t[0] in ("leave", "advupdate") else "commit")
+            if t[0] in ("send", "selfupdate", "data", "leave", "advremove", "advgce", "remove", "advupdate", "add", "advprop"):
+                kind = "app" if t[0] == "send" else ("proposal" if t[0] in ("leave", "advupdate", "advprop") else "commit")
                 e = w.publish(c, kind, int(t[1]))
-                if e is not None and t[0] == "advupdate":
-                    w.events[e]["unmodelled"] = True
                 if e is not None and t[0] in ("advremove", "advgce"):
                     # unauthorised iff the crafter is not an admin in the state it crafts the commit in
                     w.events[e]["adv"] = (t[0] == "advgce") or not w.events[e].get("sender_admin")
